@@ -38,7 +38,11 @@ EstViol(e) ==
   THEN (IF Hung(e.established) THEN {V("C07", "HangWhenPeerClosesDuringHello", e, "close=" \o e.hello_close)}
         ELSE IF e.established = "yes" /\ Messages(Prefix(HelloStream, e.hello_close_at)) = <<>>
              THEN {V("C06", "EstablishedWithoutCompleteHello", e, "")} ELSE {})
-  ELSE (IF Hung(e.established) THEN {V("C06", "HelloNotDelivered", e, IF e.hello_cuts = <<>> THEN "uncut" ELSE "cut")}
+  ELSE (IF e.established = "killed" /\ e.close # "none"
+        (* the whole process had to be killed from outside: a receiver that never yields after the peer went away *)
+        THEN {V("C07", "ProcessStuckAfterPeerClosed", e,
+                "close=" \o e.close \o (IF Has(e, "cpu_ms") /\ e.cpu_ms > 5000 THEN " busy-loop" ELSE " asleep"))}
+        ELSE IF Hung(e.established) THEN {V("C06", "HelloNotDelivered", e, IF e.hello_cuts = <<>> THEN "uncut" ELSE "cut")}
         ELSE IF e.established # "yes" THEN {V("C06", "SpuriousEstablishmentError", e, "")} ELSE {})
 
 ResultViol(e) ==
